@@ -165,6 +165,20 @@ impl AnnotationFinder<'_> {
             return None;
         }
 
+        // If part of the final expression didn't type check (e.g. a
+        // `match` whose cases have different types), the type
+        // checker recovers with a guess, so we can't rely on `ty`.
+        if let Some(expr) = body.exprs.last() {
+            let mut error_finder = ErrorTypeFinder {
+                id_to_ty: self.id_to_ty,
+                found: false,
+            };
+            error_finder.visit_expr(expr);
+            if error_finder.found {
+                return None;
+            }
+        }
+
         Some(ty)
     }
 }
@@ -216,6 +230,27 @@ impl Visitor for AnnotationFinder<'_> {
         // Recurse into the bound expression, which may contain
         // lambdas or nested lets.
         self.visit_expr(expr);
+    }
+}
+
+/// Finds expressions whose type is a type checker error.
+struct ErrorTypeFinder<'a> {
+    id_to_ty: &'a FxHashMap<SyntaxId, Type>,
+    found: bool,
+}
+
+impl Visitor for ErrorTypeFinder<'_> {
+    fn visit_expr(&mut self, expr: &Expression) {
+        if let Some(Type::Error { .. }) = self.id_to_ty.get(&expr.id) {
+            self.found = true;
+        }
+
+        self.visit_expr_(&expr.expr_);
+    }
+
+    fn visit_expr_fun_literal(&mut self, _: &FunInfo) {
+        // The body of a nested closure doesn't affect the type of
+        // the value we return.
     }
 }
 
